@@ -22,3 +22,72 @@ Section Bunches.
   Definition create_bunches (groups jobs : list A) (mb ms : Z) : list (list A) :=
     finish (fold_left (step mb ms) (groups ++ jobs) ([], [], 0)).
 End Bunches.
+
+(** ** The submission path: what [Batch._submit] SENDS.
+
+    Hand model of [_submit] / [_create_fast] / [_update_fast] / [_submit_job_group_bunches] /
+    [_submit_job_groups] / [_submit_job_bunches] / [_submit_jobs] / [_submit_spec_bunch]: the list of HTTP
+    requests in program order, each with the specs its body carries.  A spec is tagged with its [SpecType]
+    ([true] = JOB, [false] = JOB_GROUP) exactly as [_create_bunches] tags it.  The job requests are spawned
+    concurrently (bounded_gather): [job_reqs] lists them in spawn order and the theorems about them hold for
+    every permutation (SubmitLemmas.v).  Tied to the real code by correspondence (harness/props/C19.py). *)
+Section Submit.
+  Context {A : Type}.
+
+  Definition tagged : Type := (A * bool)%type.
+  Definition tag (job : bool) (l : list A) : list tagged := map (fun x => (x, job)) l.
+  Definition is_job (e : tagged) : bool := snd e.
+  Definition is_group (e : tagged) : bool := negb (snd e).
+  Definition jobs_of (b : list tagged) : list A := map fst (filter is_job b).
+  Definition groups_of (b : list tagged) : list A := map fst (filter is_group b).
+
+  Inductive request : Type :=
+  | OpenBatch                                   (* POST batches/create *)
+  | CreateUpdate                                (* POST batches/<id>/updates/create *)
+  | Commit                                      (* PATCH updates/<u>/commit *)
+  | CreateFast (groups jobs : list A)           (* POST batches/create-fast *)
+  | UpdateFast (groups jobs : list A)           (* POST batches/<id>/update-fast *)
+  | GroupsCreate (specs : list A)               (* POST updates/<u>/job-groups/create *)
+  | JobsCreate (specs : list A).                (* POST updates/<u>/jobs/create *)
+
+  (* _submit_job_groups / _submit_jobs: filter the bunch by type, send only if something is left *)
+  Definition submit_job_groups (b : list tagged) : list request :=
+    let g := groups_of b in if is_nil g then [] else [GroupsCreate g].
+  Definition submit_jobs (b : list tagged) : list request :=
+    let j := jobs_of b in if is_nil j then [] else [JobsCreate j].
+
+  (* _submit_job_group_bunches: sequential over ALL bunches; _submit_job_bunches: one task per bunch, ALL bunches *)
+  Definition group_reqs (bunches : list (list tagged)) : list request := flat_map submit_job_groups bunches.
+  Definition job_reqs (bunches : list (list tagged)) : list request := flat_map submit_jobs bunches.
+
+  Definition slow_trace (created : bool) (G J : list request) : list request :=
+    (if created then CreateUpdate else OpenBatch) :: G ++ J ++ [Commit].
+
+  Definition submit (created : bool) (bunches : list (list tagged)) : list request :=
+    match bunches with
+    | [] => if created then [] else [OpenBatch]
+    | [b] => if created then [UpdateFast (groups_of b) (jobs_of b)] else [CreateFast (groups_of b) (jobs_of b)]
+    | _ => slow_trace created (group_reqs bunches) (job_reqs bunches)
+    end.
+
+  (* what a request carries *)
+  Definition req_groups (r : request) : list A :=
+    match r with CreateFast g _ | UpdateFast g _ | GroupsCreate g => g | _ => [] end.
+  Definition req_jobs (r : request) : list A :=
+    match r with CreateFast _ j | UpdateFast _ j | JobsCreate j => j | _ => [] end.
+  Definition sent_groups (t : list request) : list A := flat_map req_groups t.
+  Definition sent_jobs (t : list request) : list A := flat_map req_jobs t.
+
+  (* for the correspondence run: (kind, group payload, job payload) *)
+  Definition req_code (r : request) : Z :=
+    match r with OpenBatch => 0 | CreateUpdate => 1 | Commit => 2 | CreateFast _ _ => 3 | UpdateFast _ _ => 4
+               | GroupsCreate _ => 5 | JobsCreate _ => 6 end.
+  Definition encode (t : list request) : list (Z * list A * list A) :=
+    map (fun r => (req_code r, req_groups r, req_jobs r)) t.
+End Submit.
+Arguments request : clear implicits.
+
+(** The whole client pipeline: tag, bunch, submit. *)
+Definition submit_specs {A : Type} (bunch : list (@tagged A) -> list (@tagged A) -> list (list (@tagged A)))
+    (created : bool) (groups jobs : list A) : list (request A) :=
+  submit created (bunch (tag false groups) (tag true jobs)).
